@@ -77,7 +77,7 @@ func x06DoLca(bindir, dir, tag, slot string, tol int, recs []x06LcaRec) x06LcaEv
 		args = append(args, "--lca-error", fmt.Sprintf("%.3f", float64(tol)/1000))
 	}
 	args = append(args, "--max-cpu", "2", in)
-	out, rc, stderr := runBinary(filepath.Join(bindir, "obiannotate"), args, dir)
+	out, rc, stderr := x06Run(filepath.Join(bindir, "obiannotate"), args, dir)
 	ev.Rc = rc
 	if rc != 0 {
 		ev.Err = x06Trunc(stderr)
